@@ -300,6 +300,19 @@ pub fn run_case_as(c: &Case, kind: &str, ety: &str, mode: &str) -> Result<Obs, S
                 n => Err(format!("array inputs of length {n} not instantiated")),
             }
         }
+        "graph" => {
+            if ety != "rich" {
+                return Err(format!("error type {ety} not instantiated for kind graph"));
+            }
+            // the string is the concatenation of the clusters; the crate has to find the cluster boundaries again
+            let s: &'static str = Box::leak(crate::errs::expand_clusters(&c.inp).into_boxed_str());
+            let mut offs = vec![0usize];
+            for t in &c.inp {
+                offs.push(offs.last().unwrap() + crate::errs::expand_clusters(&[*t]).len());
+            }
+            LOCS.with(|l| *l.borrow_mut() = offs);
+            run_kind::<&'static chumsky::text::Graphemes, Rich<&'static chumsky::text::Grapheme>>(&c.g, chumsky::text::Graphemes::new(s), &c.inp, mode)
+        }
         "stream" | "bstream" | "mapped" | "mstream" | "wctx" | "mapspan" | "io" | "bytes" => {
             if ety != "rich" {
                 return Err(format!("error type {ety} not instantiated for kind {kind}"));
